@@ -1,6 +1,8 @@
 package crossbar
 
-// Accessor for the C13 harness (added to the build with -overlay; /repo is not touched).
+// Accessors for the C13 harness (added to the build with -overlay; /repo is not touched).
+
+import "time"
 
 // VerifChanEntries counts the deny channels currently recorded in the hub's chanmap store.
 func VerifChanEntries(h *Hub) int {
@@ -14,4 +16,12 @@ func VerifChanEntries(h *Hub) int {
 		n += len(children)
 	}
 	return n
+}
+
+// VerifHoldHub keeps the hub's lock for d: the hub loop stops inside whatever it is doing, and
+// register / unregister / broadcast requests pile up behind it (a busy hub, deterministically).
+func VerifHoldHub(h *Hub, d time.Duration) {
+	h.mu.Lock()
+	time.Sleep(d)
+	h.mu.Unlock()
 }
